@@ -199,8 +199,11 @@ def run(rep, pid, feats, n, findings, rule, gover="1.21", tapes=3, histlen=10, b
         # the computable side conditions of the C01 theorem (coq/Side.v) on every generated program
         names = {0: "model_rejects", 1: "model_output_not_legal", 2: "legal_but_outside_proved_fragment", 3: "within_C01_theorem"}
         cnt = {v: 0 for v in names.values()}
+        cnt["within_end_to_end_machine_theorem"] = 0
         for h in hyps:
-            cnt[names[h]] += 1
+            cnt[names[min(h, 3)]] += 1
+            if h == 4:   # code 4: c01_hyps and no native Yield left in the model output (Link.v / LinkMachine.v)
+                cnt["within_end_to_end_machine_theorem"] += 1
         rep.coverage["theorem_side_conditions"] = cnt
         rep.coverage["legal_per_model_but_go_rejects_output"] = sum(
             1 for e, h in zip(ents, hyps) if h >= 2 and e[2][0] == "tree" and R["status"].get(e[0], "ok") != "ok")
